@@ -13,6 +13,9 @@ from mdsa.astutil import arg_or_kw, call_attr, call_recv, chain, kwarg, local_ca
 from mdsa.cfg import walk_local
 from mdsa.loader import AnalysisError, dotted
 
+from mdsa import match as M
+
+from .sem import F
 from .common import (
     Ctx,
     calls_named,
@@ -135,13 +138,11 @@ def r1b_open_rplus(P, rep, ctx):
         rep.check(tgt_ok, "C02.R1b", fi.qual, "writable reopen replaces element -1 of __files__", loc, construct=norm(st),
                   message=f"writable reopen does not replace the newest container: {norm(st)}")
         # dominated by T-edges of the two conditions
-        for needle, desc in (("hdf5_hashsum is None", "newest container has no payload hash (uncommitted)"), ("reopen_incomplete_patch", "caller asked for a writable record")):
-            tests = [t.idx for t in g.nodes if t.kind == "test" and needle in norm(t.exprs[0])]
-            if needle == "hdf5_hashsum is None":
-                tests = [t for t in tests if "_ublock(-1)" in norm(g.nodes[t].exprs[0])]
-            dominated = bool(tests) and any(n not in g.reach([g.entry], labels_block=[(t, "T")]) for t in tests)
+        f = F(ctx, fi)
+        for edges, desc in ((f.tests("__r._ublock(-1).hdf5_hashsum is None"), "newest container has no payload hash (uncommitted)"), (f.tests("kwargs.pop('reopen_incomplete_patch', ___)", "reopen_incomplete_patch", "__k.pop('reopen_incomplete_patch', ___)", "__k.get('reopen_incomplete_patch', ___)"), "caller asked for a writable record")):
+            dominated = bool(edges) and f.hit_before(n, edges=edges)
             rep.check(dominated, "C02.R1b", fi.qual, f"writable reopen only under condition: {desc}", loc,
-                      construct=f"{norm(st)} / {needle}",
+                      construct=f"writable reopen / {desc}",
                       message=f"writable reopen in _open is reachable without the condition '{desc}'",
                       path=g.path_text(g.find_path(n)))
         # path provenance: newest filename
@@ -292,9 +293,9 @@ def r2_provenance(P, rep, ctx):
     # delete_files in _create only under `truncate`
     fi = P.func("ih5.record.IH5Record._create")
     g = ctx.cfg(fi)
+    f = F(ctx, fi)
     for n in calls_named(g, "delete_files"):
-        tests = [t.idx for t in g.nodes if t.kind == "test" and "truncate" in norm(t.exprs[0]) and not _negated_name(t.exprs[0], "truncate")]
-        dominated = any(n not in g.reach([g.entry], labels_block=[(t, "T")]) for t in tests)
+        dominated = f.hit_before(n, edges=f.tests("truncate"))
         rep.check(dominated, "C02.R2", fi.qual, "delete_files only on the truncate branch", fi.loc(g.nodes[n].stmt), construct="delete_files under truncate",
                   message="_create calls delete_files on a path where `truncate` was not requested")
 
@@ -321,16 +322,26 @@ def r3_typestate(P, rep, ctx):
               message="_has_writable does not compare the newest container's mode with 'r+'")
     # the handle mode alone is not a sound typestate (HDF5 shares open flags between the handles of a process):
     # a container whose user block already carries a payload hash is committed and must never count as writable
-    rets = [x.value for x in walk_local(fi.node) if isinstance(x, ast.Return) and x.value is not None]
-    pos = [r for r in rets if not (isinstance(r, ast.Constant) and r.value is False)]
-    conj_ok = bool(pos) and all(isinstance(r, ast.BoolOp) and isinstance(r.op, ast.And) and any(norm(v) in ("self._ublock(-1).hdf5_hashsum is None", "self._ublock(f).hdf5_hashsum is None") for v in r.values) for r in pos)
+    f = F(ctx, fi)
+    pos = [(i, v) for i, v in f.returns() if v is not None and not (isinstance(v, ast.Constant) and v.value is False)]
+    uncommitted = f.tests("self._ublock(-1).hdf5_hashsum is None", "self._ublock(__f).hdf5_hashsum is None")
+
+    def _needs_uncommitted(i, v):
+        # either the returned conjunction contains the atom, or the return is reached only on its true edge
+        cj = [M.polarity(c) for c in M.conjuncts(f.xe(v))]
+        if any(not neg and M.match("self._ublock(__i).hdf5_hashsum is None", a) is not None for a, neg in cj):
+            return True
+        return bool(uncommitted) and f.hit_before(i, edges=uncommitted)
+
+    conj_ok = bool(pos) and all(_needs_uncommitted(i, v) for i, v in pos)
     rep.check(conj_ok, "C02.R3", fi.qual, "a container with a recorded payload hash (committed) never counts as writable, whatever mode the handle reports", fi.loc(), construct="_has_writable requires an uncommitted newest container",
               message="_has_writable infers writability from the h5py handle's mode alone: HDF5 shares open flags between handles of one process, so with a second handle on the record open the committed container still reports 'r+' after commit_patch and later writes modify it")
     # _expect_not_ro raises iff mode == 'r'; mode derives from _allow_patching
     fi = P.func("ih5.record.IH5Record._expect_not_ro")
     g = ctx.cfg(fi)
-    tests = [t for t in g.nodes if t.kind == "test" and norm(t.exprs[0]) in ("self.mode == 'r'", "not self._allow_patching", "self.mode != 'r+'")]
-    ok = bool(tests) and all(g.exit not in g.reach([b for b, lab in g.succ[t.idx] if lab == "T"]) and all(b != g.exit for b, lab in g.succ[t.idx] if lab == "T") for t in tests)
+    f = F(ctx, fi)
+    ro = f.tests("self.mode == 'r'", "not self._allow_patching", "self.mode != 'r+'")
+    ok = f.refuses(ro)
     rep.check(ok, "C02.R3", fi.qual, "_expect_not_ro raises when the record was opened 'r'", fi.loc(), construct="_expect_not_ro",
               message="_expect_not_ro does not raise on every path when mode == 'r'")
     for q in ("commit_patch", "discard_patch", "create_patch"):
@@ -340,26 +351,17 @@ def r3_typestate(P, rep, ctx):
         if not effects:
             raise AnalysisError(f"C02.R3: no state effect found in {fi.qual}")
         guards = calls_named(g, "_expect_not_ro")
-        hw_tests = [t.idx for t in g.nodes if t.kind == "test" and "_has_writable" in norm(t.exprs[0])]
+        f = F(ctx, fi)
+        writable = f.tests("self._has_writable")
         for e in effects:
             loc = fi.loc(g.nodes[e].stmt)
             rep.check(g.every_path_passes(guards, e), "C02.R3", fi.qual, f"_expect_not_ro dominates `{g.nodes[e].text()[:60]}`", loc,
                       construct=f"_expect_not_ro before {g.nodes[e].text()}", message=f"{q}: effect reachable without _expect_not_ro (mode 'r' must be strictly read-only)",
                       path=g.path_text(g.find_path(e, avoid=guards)))
-            # writable test: for commit/discard the effect must be on the "has writable" side, for create_patch on the other
-            want_label = "F" if q in ("commit_patch", "discard_patch") else "F"
-            dominated = False
-            for t in hw_tests:
-                neg = norm(g.nodes[t].exprs[0]).startswith("not ")
-                raising = "T"
-                # the branch that raises is T in both idioms (`if not hw: raise` / `if hw: raise`)
-                expect_neg = q in ("commit_patch", "discard_patch")
-                if neg != expect_neg:
-                    continue
-                t_succ = [b for b, lab in g.succ[t] if lab == raising]
-                raises = t_succ and g.exit not in g.reach(t_succ) and e not in g.reach(t_succ)
-                if raises and g.every_path_passes([t], e):
-                    dominated = True
+            # commit/discard act only when the newest container is writable, create_patch only when it is not;
+            # the other outcome of the test must refuse
+            need = writable if q in ("commit_patch", "discard_patch") else f.neg(writable)
+            dominated = bool(need) and f.hit_before(e, edges=need) and f.refuses(f.neg(need))
             rep.check(dominated, "C02.R3", fi.qual, f"writable-newest test dominates `{g.nodes[e].text()[:60]}`", loc,
                       construct=f"_has_writable before {g.nodes[e].text()}",
                       message=f"{q}: effect reachable without the {'`not self._has_writable` -> raise' if q != 'create_patch' else '`self._has_writable` -> raise'} test")
@@ -439,14 +441,16 @@ def r4_overlay_writes(P, rep, ctx):
     # guard body: raises when _is_read_only
     fi = P.func("ih5.overlay.IH5Node._guard_read_only")
     g = ctx.cfg(fi)
-    tests = [t for t in g.nodes if t.kind == "test" and norm(t.exprs[0]) in ("self._is_read_only", "not self._record._has_writable")]
-    ok = bool(tests) and all(g.exit not in g.reach([b for b, lab in g.succ[t.idx] if lab == "T"]) for t in tests) and g.every_path_passes([t.idx for t in tests], g.exit)
+    f = F(ctx, fi)
+    ro = f.tests("self._is_read_only", "not self._record._has_writable")
+    ok = f.refuses(ro) and f.hit_before(g.exit, nodes=f.test_nodes(ro))
     rep.check(ok, "C02.R4", fi.qual, "_guard_read_only raises when the newest container is not writable", fi.loc(), construct="_guard_read_only body",
               message="_guard_read_only does not raise on every path when the record has no writable container")
     fi = P.func("ih5.overlay.IH5Node._is_read_only")
-    rets = [norm(x.value) for x in walk_local(fi.node) if isinstance(x, ast.Return) and x.value is not None]
-    rep.check(rets == ["not self._record._has_writable"], "C02.R4", fi.qual, "_is_read_only == not record._has_writable", fi.loc(), construct="_is_read_only body",
-              message=f"_is_read_only is not `not self._record._has_writable`: {rets}")
+    f = F(ctx, fi)
+    rets = [v for _, v in f.returns() if v is not None]
+    rep.check(len(rets) >= 1 and all(M.equivalent(f.xe(v), "not self._record._has_writable") for v in rets), "C02.R4", fi.qual, "_is_read_only == not record._has_writable", fi.loc(), construct="_is_read_only body",
+              message=f"_is_read_only is not `not self._record._has_writable`: {f.return_texts()}")
     for fi, n, desc, k in overlay_raw_writes(P, ctx):
         g = ctx.cfg(fi)
         loc = fi.loc(g.nodes[n].stmt)
